@@ -144,8 +144,21 @@ def mustQuoteFixed (s : Bytes) : Bool :=
   s == tilde || isDocMarker s || docMarkerLed s || isNumFixed s || keywords.contains s || !nsPlainOneLine s ||
   endsWhite s
 
-/-- SWITCH: which `must_quote` the correspondence compares the real writer with. -/
-def mustQuoteActive : Bytes → Bool := mustQuoteFixed
+/-! ### work-around for finding `yaml-flow:blank-dash-end` (design/fixes/C14-yaml-flow-blank-dash.diff):
+saphyr-parser rejects a plain scalar that ends in a blank followed by `-` when it stands before
+`,` `]` `}` in a flow collection (valid YAML); the repaired `must_quote` quotes such strings. -/
+
+/-- `matches!(s, [.., b' ' | b'\t', b'-'])` -/
+def endsBlankDash (s : Bytes) : Bool :=
+  match s.reverse with
+  | c :: b :: _ => c == 45 && sWhite b
+  | _ => false
+
+def mustQuoteFixed2 (s : Bytes) : Bool := mustQuoteFixed s || endsBlankDash s
+
+/-- SWITCH: which `must_quote` the correspondence compares the real writer with
+(`mustQuoteFixed` = current tree; `mustQuoteFixed2` once C14-yaml-flow-blank-dash.diff is applied). -/
+def mustQuoteActive : Bytes → Bool := mustQuoteFixed2
 
 /-! ## reader: `Num::from_str_radix` -/
 
